@@ -20,6 +20,9 @@ def check_cpa(alt, traces, data, precision, splits):
     if res.shape != wshape + (traces.shape[1],): return 'layout %s' % (res.shape,)
     flat = data.reshape(len(data), -1); r2 = res.reshape(flat.shape[1], -1)
     tol = 2e-3 if precision == 'float32' else 1e-9
+    if data.ndim >= 3:      # the memory layout of the caller's array is not part of the property
+        d2 = cls(precision=precision); d2.update(traces, np.asfortranarray(data)); res2 = d2.compute()
+        if res2.shape != res.shape or not np.allclose(res2, res, atol=tol, equal_nan=True): return 'the same data stored in Fortran order give a different result'
     for w in range(flat.shape[1]):
         for s in range(traces.shape[1]):
             e = pearson_exact(traces[:, s], flat[:, w]); g = r2[w, s]
@@ -35,6 +38,9 @@ def check_dpa(traces, data, precision, splits):
     res = d.compute(); flat = data.reshape(len(data), -1); r2 = res.reshape(flat.shape[1], -1)
     if res.shape != data.shape[1:] + (traces.shape[1],): return 'layout %s' % (res.shape,)
     tol = 1e-3 if precision == 'float32' else 1e-9
+    if data.ndim >= 3:
+        d2 = scared.DPADistinguisher(precision=precision); d2.update(traces, np.asfortranarray(data)); res2 = d2.compute()
+        if res2.shape != res.shape or not np.allclose(res2, res, atol=tol, equal_nan=True): return 'the same data stored in Fortran order give a different result'
     for w in range(flat.shape[1]):
         ones = flat[:, w] == 1
         for s in range(traces.shape[1]):
